@@ -24,7 +24,8 @@ theorem inv_advance_pre (c : Cfg) (ar aq : Nat) (s : S) (h : Inv c ar aq s) (p :
     have h17 := h.k17 hcl hp
     have hq2 : fwdPhase p = false ∧ upPhase p = false ∧ p ≠ .End ∧ p ≠ .Retry := by
       cases p <;> simp [prePhase, fwdPhase, upPhase] at hq ⊢
-    have hnw : s.phase ≠ .WaitNotify := by intro hh; rw [hh] at hp; simp [prePhase] at hp
+    have hnw : ¬ (s.phase = .WaitNotify ∨ s.phase = .Retry) := by
+      intro hh; rcases hh with hh | hh <;> (rw [hh] at hp; simp [prePhase] at hp)
     obtain ⟨k0, k1, k2, k3, k4, k5, k6, k7, k8, k9, k10, k11, k12, k13, k14, k15, k16, k17, k18, k19, k20, k21, k22, k23, k24, k25, k26, k27, k28, k29, k30, k31, k32, k33⟩ := h
     refine ⟨k0, k1, k2, k3, k4, k5, k6, k7_frame k7 hcl hnw rfl rfl, ?_, k9, k10, k11, k12, k13, k14, ?_, ?_, ?_, ?_, ?_, k20, k21, k22, ?_, k24, k25, ?_, ?_, ?_, ?_, ?_, k31, ?_, (fun hh => absurd hh (by simp [hcl]))⟩
     · intro _
@@ -55,7 +56,7 @@ theorem inv_work_pre (c : Cfg) (ar aq : Nat) (s : S) (h : Inv c ar aq s) (hrun :
     (hp : s.phase = .DownFilter ∨ s.phase = .MatchRoute ∨ s.phase = .DownFilterAfterRoute) :
     Inv c ar aq (finishPhase c s) := by
   apply finish_inv c ar aq s h hrun
-  · intro hh; rcases hp with hp | hp | hp <;> (rw [hp] at hh; cases hh)
+  · rcases hp with hp | hp | hp <;> (rw [hp]; decide)
   · intro hh; rcases hp with hp | hp | hp <;> (rw [hp] at hh; cases hh)
   · intro _ _
     apply inv_advance_pre c ar aq s h
